@@ -3,6 +3,8 @@
    for every layer list and every dictionary. *)
 From Coq Require Import String List Bool.
 From QV Require Import Convert.ModelQuantize.
+From QVGen Require Import ConvertGen.
+From QV Require Import Link.ConvertLink.
 Import ListNotations.
 Open Scope string_scope.
 
@@ -65,3 +67,14 @@ Example C12_nonvacuous :
                                          L "Flatten" "f" false None None None]) =
   ["QDense|d1|quantized_relu(6)|quantized_bits(4,0,1)|quantized_bits(4)"; "QDense|d2|softmax|ternary()|<none>"; "Flatten|f|<none>|<none>|<none>"].
 Proof. vm_compute. reflexivity. Qed.
+
+(* ---- tie to the source (T): the dictionary lookup and the activation map regenerated from qkeras/utils.py on this run
+   are, for all dictionaries / names / strings, the functions the theorems above are about ---- *)
+Theorem C12_source_lookup_is_the_model : forall d name cls param,
+  translation_ok = true /\ gen_lookup d name cls param = lookup d name cls param.
+Proof. intros. split; [exact link_convert_ok | apply link_lookup]. Qed.
+Print Assumptions C12_source_lookup_is_the_model.
+Theorem C12_source_activation_map_is_the_model : forall act bits,
+  gen_quantize_activation act bits = quantize_activation act bits.
+Proof. exact link_quantize_activation. Qed.
+Print Assumptions C12_source_activation_map_is_the_model.
